@@ -23,7 +23,7 @@ Definition unguarded (o : op) : bool :=
   | AddCols _ _ _ t k _ => match t with None => true | Some _ => (k <? 0)%Z end
   | AddColsTab _ _ t k => match t with None => true | Some _ => (k <? 0)%Z end
   | AddSel _ _ | DelUID _ | DelCol _ | DelName _ | DelUIDs _ | DelByLoc _ | ClearLoc _ | SwitchLoc _ _
-  | SetNameUID _ _ | SetNameOld _ _ | AddSamples _ _ | DelSample _ | SetArray _ _ _ | SetValue _ _ _
+  | SetNameCol _ _ | SetNameUID _ _ | SetNameOld _ _ | AddSamples _ _ | DelSample _ | SetArray _ _ _ | SetValue _ _ _
   | DupCol _ _ | DelCols _ | DelNames _ | DelUIDRange _ _ | SetNameList _ _ | SetNameLoc _ _ => true
   | _ => false
   end.
@@ -70,32 +70,4 @@ Proof.
   - intros [_ [_ [_ [Hnd _]]]]. specialize (Hnd 1). vm_compute in Hnd.
     inversion Hnd as [|x l Hni _]; subst. apply Hni. now left.
   - vm_compute. reflexivity.
-Qed.
-(* a role given to the uid of a deleted column stays in the role list, pointing to no column *)
-Definition cex_dead_state : state := run_ops [AddCols 2 (Some 0%Z) nmA None 0 2; DelUID 0].
-Definition cex_dead_op : op := SetLocUID 0 Zt 0 false.
-Lemma cex_dead :
-  Inv cex_dead_state /\ why_not cex_dead_state cex_dead_op = 2%Z /\
-  ~ Inv (step cex_dead_state cex_dead_op) /\
-  loc (step cex_dead_state cex_dead_op) 1 = [0] /\ col_of_loc (step cex_dead_state cex_dead_op) 1 0 = None.
-Proof.
-  split; [|split; [|split; [|split]]].
-  - apply reachable_inv. apply all_acceptedb_spec. vm_compute. reflexivity.
-  - vm_compute. reflexivity.
-  - intros [_ [_ [_ [_ [Hlive _]]]]]. specialize (Hlive 1 0). vm_compute in Hlive.
-    destruct Hlive as [c Hc]; auto. discriminate.
-  - vm_compute. reflexivity.
-  - vm_compute. reflexivity.
-Qed.
-(* setNameByColIdx does not repair duplicates *)
-Definition cex_name_state : state := run_ops [AddCols 2 (Some 0%Z) nmA None 0 2].
-Definition cex_name_op : op := SetNameCol 1 [97; 45; 49]%Z.
-Lemma cex_name :
-  Inv cex_name_state /\ why_not cex_name_state cex_name_op = 4%Z /\ ~ Inv (step cex_name_state cex_name_op).
-Proof.
-  split; [|split].
-  - apply reachable_inv. apply all_acceptedb_spec. vm_compute. reflexivity.
-  - vm_compute. reflexivity.
-  - intros [_ [_ [Hnd _]]]. unfold Inv_names in Hnd. vm_compute in Hnd.
-    inversion Hnd as [|x l Hni _]; subst. apply Hni. now left.
 Qed.
